@@ -53,8 +53,8 @@ MUTANTS = [
      "      if key.test_info.weak:\n        logging.warning(\"Weak issuer public key: %s\", key)",
      "      if pks_pb[0].test_info.weak:\n        logging.warning(\"Weak issuer public key: %s\", key)"),
     ("c16-getter-stale-all", "C16", L + "paranoid.py",
-     "    _check_factory[_RSA_ALL].update(GetRSASingleChecks())\n    _check_factory[_RSA_ALL].update(GetRSAAggregateChecks())",
-     "    _check_factory[_RSA_ALL].update(GetRSASingleChecks())\n    if len(_check_factory) > 3:\n      _check_factory[_RSA_ALL].update(GetRSAAggregateChecks())"),
+     "    checks = dict(GetRSASingleChecks())\n    checks.update(GetRSAAggregateChecks())",
+     "    checks = dict(GetRSASingleChecks())\n    if len(_check_factory) > 3:\n      checks.update(GetRSAAggregateChecks())"),
     ("c16-severity-const", "C16", L + "base_check.py",
      "        severity=self.severity, test_name=self.check_name, result=False)",
      "        severity=paranoid_pb2.SeverityType.SEVERITY_CRITICAL, test_name=self.check_name, result=False)"),
